@@ -51,6 +51,7 @@ class NumericalSolver:
         with UnitEnvironment(self.env.units):
             operators = {
                 'log':CustomOperatorLog, 'log10':CustomOperatorLog10, 'logb':CustomOperatorLogb,
+                'ln':CustomOperatorLn,
                 'exp':CustomOperatorExp, 'sqrt':CustomOperatorSqrt,   'powb':CustomOperatorPowb,
                 'sin':CustomOperatorSin, 'cos':CustomOperatorCos,     'tan':CustomOperatorTan,
                 'par':OperatorPar,  # should be the last of parenthesis operators
@@ -145,6 +146,9 @@ class CustomOperatorExp(OperatorExp):
 class CustomOperatorLog(OperatorLog):
     def operate_args(self, tokens):
         tokens.put_left(np.log(self.args[0]))     
+
+class CustomOperatorLn(CustomOperatorLog):
+    symbol: str = 'ln('    # the name used by the documentation
 
 class CustomOperatorLog10(OperatorLog10):
     def operate_args(self, tokens):
